@@ -29,8 +29,8 @@ def probes(chk, module, plist):
 def warn_divergence(chk, res, label):
     n = res.get("notes", {}).get("divergences", 0)
     if n:
-        print("NOTE %s: %d table entries of the real code differ from RangeStmt.tla without breaking the property "
-              "(the specification no longer transcribes the code exactly): %s" % (label, n, {k: v for k, v in res["notes"].items() if k.startswith("divergence_")}))
+        print("NOTE %s: %d table entries of the real code differ from RangeStmt.tla (counted only: verdicts come from the integer semantics) "
+              "- the specification no longer transcribes the code exactly: %s" % (label, n, {k: v for k, v in res["notes"].items() if k.startswith("divergence_")}))
 
 
 def run(chk):
